@@ -210,27 +210,34 @@ end lookup
 section wps
 variable {K : Type} [Zero K] [One K] [Mul K] [Div K] [LT K] [DecidableEq K] [DecidableLT K]
 
+/-- `auto_scale[k] = np.reciprocal(autocorr) if divide else autocorr` for `autocorr = vis[i, j, a].real` -/
+def autoScaleAt (divide : Bool) (visRe : List (Scalar K)) (a : Nat) : Except Err (Scalar K) :=
+  match getNat visRe a with
+  | .error e => .error e
+  | .ok v => .ok (if divide then v.recip else v)
+
+/-- body of the `k` loop: `p = auto_scale[index1[k]] * auto_scale[index2[k]]`, substituted by
+    `bad_weight` when not finite, times `weights[i, j, k]` -/
+def scaleElem (bad : K) (i1 i2 : List Nat) (wRow autoScale : List (Scalar K)) (k : Nat) : Except Err (Scalar K) :=
+  match getNat i1 k, getNat i2 k, getNat wRow k with
+  | .ok j1, .ok j2, .ok w =>
+    match getNat autoScale j1, getNat autoScale j2 with
+    | .ok s1, .ok s2 =>
+      let p := s1.mul s2
+      let p := if p.isFinite then p else Scalar.val bad
+      .ok (p.mul w)
+    | _, _ => .error .index
+  | _, _, _ => .error .index
+
 /-- body of the `(i, j)` loop of `weight_power_scale` for one time-frequency sample:
     `visRe` = real parts of all `B` products, `wRow` their weights.
     numba does not bounds-check; an index outside its array is an `IndexError` here and the
     theorems show that it cannot happen with the output of `corrprodToAutocorr`. -/
 def scaleRow (bad : K) (divide : Bool) (ai i1 i2 : List Nat) (visRe wRow : List (Scalar K)) :
     Except Err (List (Scalar K)) :=
-  match mapME (fun a => match getNat visRe a with
-      | .error e => .error e
-      | .ok v => .ok (if divide then v.recip else v)) ai with
+  match mapME (autoScaleAt divide visRe) ai with
   | .error e => .error e
-  | .ok autoScale =>
-    mapME (fun k =>
-      match getNat i1 k, getNat i2 k, getNat wRow k with
-      | .ok j1, .ok j2, .ok w =>
-        match getNat autoScale j1, getNat autoScale j2 with
-        | .ok s1, .ok s2 =>
-          let p := s1.mul s2
-          let p := if p.isFinite then p else Scalar.val bad
-          .ok (p.mul w)
-        | _, _ => .error .index
-      | _, _, _ => .error .index) (List.range visRe.length)
+  | .ok autoScale => mapME (scaleElem bad i1 i2 wRow autoScale) (List.range visRe.length)
 
 /-- `weight_power_scale(vis, weights, auto_indices, index1, index2, divide=…)` on `(T, F, B)` arrays -/
 def weightPowerScale (bad : K) (divide : Bool) (ai i1 i2 : List Nat) (visRe w : Arr3 (Scalar K)) :
@@ -253,16 +260,20 @@ def scaleRowChunked {α} [DecidableEq α] (bad : K) (divide : Bool) (cps : List 
   | .error e => .error e
   | .ok (ai, i1, i2) => scaleRow bad divide ai i1 i2 (rechunkRow visChunks) (rechunkRow wChunks)
 
-/-- spec of one sample: documented kernel on the autocorrelations found by label -/
+/-- spec of one element: documented kernel on the autocorrelations found by label -/
+def weightsElemSpec {α} [DecidableEq α] (bad : K) (divide : Bool) (cps : List (α × α))
+    (visRe : List (Scalar K)) (p : α × α) (w : Scalar K) : Except Err (Scalar K) :=
+  match autoPos cps p.1, autoPos cps p.2 with
+  | .ok p1, .ok p2 =>
+    match getNat visRe p1, getNat visRe p2 with
+    | .ok a1, .ok a2 => .ok (kernelSpec bad divide a1 a2 w)
+    | _, _ => .error .index
+  | _, _ => .error .key
+
+/-- spec of one sample -/
 def weightsRowSpec {α} [DecidableEq α] (bad : K) (divide : Bool) (cps : List (α × α))
     (visRe wRow : List (Scalar K)) : Except Err (List (Scalar K)) :=
-  zipME (fun (p : α × α) w =>
-    match autoPos cps p.1, autoPos cps p.2 with
-    | .ok p1, .ok p2 =>
-      match getNat visRe p1, getNat visRe p2 with
-      | .ok a1, .ok a2 => .ok (kernelSpec bad divide a1 a2 w)
-      | _, _ => .error .index
-    | _, _ => .error .key) cps wRow
+  zipME (weightsElemSpec bad divide cps visRe) cps wRow
 
 end wps
 
@@ -333,16 +344,19 @@ def correctAutocorrQuantisation {α} [DecidableEq α] (tbl : List (K × K)) (cps
   | .error e => .error e
   | .ok (ai, _, _) => mapME (fun vt => mapME (fun row => vanVleckRow tbl ai row) vt) vis
 
-/-- spec of the correction on one sample: products whose two inputs are equal get the
-    interpolated real part (and no imaginary part), every other product is untouched -/
+/-- spec of the correction on one product: equal inputs ⇒ interpolated real part (and no imaginary
+    part), every other product is untouched -/
+def vanVleckElemSpec {α} [DecidableEq α] (tbl : List (K × K)) (p : α × α) (v : Cx (Scalar K)) :
+    Except Err (Cx (Scalar K)) :=
+  if p.1 = p.2 then
+    match interpS tbl v.re with
+    | .error e => .error e
+    | .ok y => .ok ⟨y, .val 0⟩
+  else .ok v
+
 def vanVleckRowSpec {α} [DecidableEq α] (tbl : List (K × K)) (cps : List (α × α))
     (row : List (Cx (Scalar K))) : Except Err (List (Cx (Scalar K))) :=
-  zipME (fun (p : α × α) v =>
-    if p.1 = p.2 then
-      match interpS tbl v.re with
-      | .error e => .error e
-      | .ok y => .ok ⟨y, .val 0⟩
-    else .ok v) cps row
+  zipME (vanVleckElemSpec tbl) cps row
 
 end interp
 
